@@ -5,11 +5,13 @@ from .. import astdump, common
 from ..common import coq_eval
 
 MANIFEST = {
-	'text': 'factory_map_spec, bind_spec, unaligned_sandwich (with the proved fuel bound of the fixed-point loop) and extend_no_crash are Qed '
-		'theorems (Props/C18.v, closed under the global context) over the model Cats/Derive.v of generators/util.py, for ALL expanded '
-		'schemas and every iteration order of the Python set `struct_names`; operators, connectives, attribute names and DisplayType '
-		'values of the model are regenerated from the source on every run; model and implementation are compared on both shipped schema '
-		'sets (all.cats, all_generated.cats of symbol and nem) and on random CATS schemas run through the real parser and post-processor.',
+	'text': 'factory_map_spec (+ factory_map_no_crash), bind_spec, unaligned_sandwich, propagate_fuel_sufficient (fuel bound of the '
+		'fixed-point loop), extend_no_crash and order_independent_when_flat are Qed theorems (Props/C18.v, closed under the global '
+		'context) over the model Cats/Derive.v of generators/util.py, for ALL expanded schemas and every iteration order of the Python set '
+		'`struct_names`; operators, connectives, attribute names and DisplayType values of the model are regenerated from the source on '
+		'every run; model and implementation are compared on both shipped schema sets (all.cats, all_generated.cats of symbol and nem) '
+		'and on random CATS schemas run through the real parser and post-processor; an independent oracle states the property on the '
+		'implementation results.',
 	'design_ref': 'DESIGN.md section 4, C18',
 	'technique': 'Coq proof over regenerated model + vm_compute correspondence with the Python implementation + independent property oracle',
 }
